@@ -18,6 +18,7 @@ import (
 	"path"
 	"path/filepath"
 	"reflect"
+	"regexp"
 	"sort"
 	"strconv"
 	"strings"
@@ -629,4 +630,94 @@ func (i *interpreter) parseIntRope(v value, t types.Type) value {
 		return tuple{fit(i.W, t, p.t, lo, hi), iface{}}
 	}
 	panic(unmodelled{"strconv parse of a symbolic string that is not an itoa part"})
+}
+
+// ---- regexp: compiled expressions are opaque native handles ----
+
+type nativeRegexp struct{ re *regexp.Regexp }
+
+func (i *interpreter) regexpCall(fn *ssa.Function, args []value) (value, bool) {
+	name := fn.Name()
+	if fn.Signature.Recv() == nil {
+		switch name {
+		case "MustCompile", "Compile", "MustCompilePOSIX", "CompilePOSIX":
+			pat, ok := args[0].(string)
+			if !ok {
+				panic(unmodelled{"regexp compile of symbolic pattern"})
+			}
+			re, err := regexp.Compile(pat)
+			if strings.HasSuffix(name, "POSIX") {
+				re, err = regexp.CompilePOSIX(pat)
+			}
+			if err != nil {
+				if strings.HasPrefix(name, "Must") {
+					panic(targetPanic{iface{i.runtimeErrorString, "regexp: " + err.Error()}})
+				}
+				return tuple{(*value)(nil), i.mkError(err.Error())}, true
+			}
+			cell := value(nativeRegexp{re})
+			if strings.HasPrefix(name, "Must") {
+				return &cell, true
+			}
+			return tuple{&cell, iface{}}, true
+		case "QuoteMeta":
+			return regexp.QuoteMeta(argStr(args[0])), true
+		case "MatchString":
+			ok, err := regexp.MatchString(argStr(args[0]), argStr(args[1]))
+			if err != nil {
+				return tuple{false, i.mkError(err.Error())}, true
+			}
+			return tuple{ok, iface{}}, true
+		}
+		return nil, false
+	}
+	p, ok := args[0].(*value)
+	if !ok || p == nil {
+		return nil, false
+	}
+	h, ok := (*p).(nativeRegexp)
+	if !ok {
+		return nil, false
+	}
+	for _, a := range args[1:] {
+		if hasSym(a) {
+			panic(unmodelled{"regexp method " + name + " on symbolic input"})
+		}
+	}
+	switch name {
+	case "ReplaceAllStringFunc":
+		f := args[2]
+		return h.re.ReplaceAllStringFunc(args[1].(string), func(s string) string {
+			return call(i, nil, token.NoPos, f, []value{s}).(string)
+		}), true
+	}
+	m := reflect.ValueOf(h.re).MethodByName(name)
+	if !m.IsValid() {
+		panic(unmodelled{"regexp method " + name})
+	}
+	mt := m.Type()
+	if mt.NumIn() != len(args)-1 || mt.IsVariadic() {
+		panic(unmodelled{"regexp method " + name + " (signature)"})
+	}
+	in := make([]reflect.Value, len(args)-1)
+	for k, a := range args[1:] {
+		v, ok := toNative(a, mt.In(k))
+		if !ok {
+			panic(unmodelled{"regexp method " + name + " (argument)"})
+		}
+		in[k] = v
+	}
+	out := m.Call(in)
+	res := fn.Signature.Results()
+	switch res.Len() {
+	case 0:
+		return nil, true
+	case 1:
+		return i.fromNative(out[0], res.At(0).Type()), true
+	}
+	t := make(tuple, res.Len())
+	for k := range t {
+		t[k] = i.fromNative(out[k], res.At(k).Type())
+	}
+	return t, true
 }
